@@ -48,7 +48,10 @@ inductive Act where
   | peerReq                   -- a peer asks for the tree (`handleRequestTree`: `treeStorage.Get`, no refresh)
   | doneRefused (tok : Nat)   -- `Done()` with an `OnDoneCallback` that returns false: nothing happens
   | treeResp                  -- the tree arrives from the peer that was asked for it
-  | ctorFail (i : Nat)        -- the protocol constructor of thread `i` (at `bind`) returns an error
+  /-- the protocol constructor of thread `i` (at `bind`) produces no instance: it returns an error, it panics
+  (`serviceManager.newProtocol` recovers a service's panic into an error), or — `nilInst` — it returns
+  `(nil, nil)` -/
+  | ctorFail (i : Nat) (nilInst : Bool)
   deriving Repr
 
 def at_ (p : Pc) (t : Th) : Bool := t.pc == p
@@ -127,10 +130,11 @@ def step (s : St) : Act → Option St
       if s.requested ∧ s.present = false then
         some { s with present := true, armed := false, requested := false, thr := flushAll s.thr }
       else none
-  -- the constructor returns an error (an arrival: `newProtocol` fails in `TransmitMsg`; a local start:
-  -- `protocolInstantiate` fails in `CreateProtocol`): `nodeDelete` — unlisted, marked finished,
-  -- `cleanTreeStorage`; nothing is handed over
-  | .ctorFail i =>
+  -- the constructor produces no instance (an arrival: `newProtocol` returns an error — its own, or a service's
+  -- recovered panic — or `(nil, nil)` in `TransmitMsg`; a local start: `protocolInstantiate` fails in
+  -- `CreateProtocol`): in every case `nodeDelete` — unlisted, marked finished, `cleanTreeStorage`; nothing is
+  -- handed over
+  | .ctorFail i _ =>
       match s.thr[i]? with
       | some t =>
         if t.pc = .bind then
@@ -163,9 +167,10 @@ def stepOld (s : St) : Act → Option St
       | none => none
   | a => step s a
 
-/-- the code as it was before the two repairs of round 5: the error path of `TransmitMsg` for a token that
-names no node of the tree returns without `cleanTreeStorage`, and `CreateProtocol` returns the constructor's
-error without `nodeDelete` (for an arrival `TransmitMsg` did call it) -/
+/-- the code as it was before the three repairs of round 5: the error path of `TransmitMsg` for a token that
+names no node of the tree returns without `cleanTreeStorage`, `CreateProtocol` returns the constructor's
+error without `nodeDelete` (for an arrival `TransmitMsg` did call it), and `TransmitMsg` returns without
+`nodeDelete` when the constructor gave neither an instance nor an error -/
 def stepOld5 (s : St) : Act → Option St
   | .thread i =>
       match s.thr[i]? with
@@ -174,12 +179,14 @@ def stepOld5 (s : St) : Act → Option St
           some { s with thr := s.thr.set i { t with pc := .fin } }
         else stepTh s i t
       | none => none
-  | .ctorFail i =>
+  | .ctorFail i n =>
       match s.thr[i]? with
       | some t =>
-        if t.pc = .bind ∧ t.m = 0 then
+        -- a local start whose constructor returned an error, or an arrival whose constructor returned `(nil, nil)`
+        -- (`if pi == nil { return nil }`): the node stays listed, no done mark
+        if t.pc = .bind ∧ (t.m = 0 ∨ n = true) then
           some { s with constructed := s.constructed ++ [t.tok], thr := s.thr.set i { t with pc := .fin } }
-        else step s (.ctorFail i)
+        else step s (.ctorFail i n)
       | none => none
   | a => step s a
 
@@ -223,8 +230,13 @@ def pcName : Pc → String
   | .lookup => "lookup" | .found => "found" | .set => "set" | .bind => "ctor" | .fin => "fin"
   | .flushed => "flushed" | .parked => "parked"
 
-/-- instances numbered 500 to 999 are runs of a protocol whose constructor returns an error (harness convention) -/
-def failTok (tok : Nat) : Bool := 500 ≤ tok && tok < 1000
+/-- instances numbered 500 to 999 and 200 to 259 are runs whose constructor produces no instance (harness convention) -/
+def failTok (tok : Nat) : Bool := (500 ≤ tok && tok < 1000) || (200 ≤ tok && tok < 260)
+
+/-- 200–219: a service's `NewProtocol` panics; 220–239: it returns an error; 240–259: the protocol constructor returns
+`(nil, nil)` — instances that only a message can create (the harness starts none of them locally) -/
+def remoteOnly (tok : Nat) : Bool := 200 ≤ tok && tok < 260
+def nilTok (tok : Nat) : Bool := 240 ≤ tok && tok < 260
 
 /-- let thread i go on through `Set` (and, unless `stopAtCtor`, through the constructor; a failing constructor is
 never held) -/
@@ -235,7 +247,7 @@ def finish (x : St) (i : Nat) (stopAtCtor : Bool) : St :=
   match x1.thr[i]? with
   | some t =>
     if t.pc = .bind then
-      if failTok t.tok then (C11.step x1 (.ctorFail i)).getD x1
+      if failTok t.tok then (C11.step x1 (.ctorFail i (nilTok t.tok))).getD x1
       else if stopAtCtor then x1
       else (C11.step x1 (.thread i)).getD x1
     else x1
@@ -347,6 +359,7 @@ def step (st : State) (toks : List String) : State × String :=
   | ["localstart", tok] =>
     match tok.toNat? with
     | some tok =>
+      if remoteOnly tok then (st, "disabled") else
       match C11.step x (.localStart tok) with
       | some x1 =>
         let i := x1.thr.length - 1
